@@ -179,6 +179,7 @@ func runCheck(o *checkOpts) int {
 	var allObls []*Obligation
 	sampledSkipped := 0
 	skippedFuncs := map[string]bool{}
+	untranslatable := map[string]string{} // function (display name + tag) -> why its contract could not be evaluated
 	oblCtx := map[*Obligation]*FuncCtx{}
 	var funcs []map[string]any
 	var engineFaults []string
@@ -199,6 +200,7 @@ func runCheck(o *checkOpts) int {
 			return 2
 		}
 		var onlyRe *regexp.Regexp
+		_ = untranslatable
 		if o.onlyFn != "" {
 			onlyRe = regexp.MustCompile(o.onlyFn)
 		}
@@ -222,6 +224,7 @@ func runCheck(o *checkOpts) int {
 			res := eng.verifyFunc(con)
 			info := map[string]any{"function": con.Func, "package": con.Pkg}
 			if res.Fn == nil {
+				untranslatable[con.Func+con.Tag] = "contract target not found in the current tree"
 				missing = append(missing, con.Pkg+"::"+con.Func)
 				info["error"] = "contract target not found in the current tree"
 				funcs = append(funcs, info)
@@ -229,6 +232,7 @@ func runCheck(o *checkOpts) int {
 			}
 			c := res.Ctx
 			if res.Err != nil {
+				untranslatable[fnDisplayName(res.Fn)+con.Tag] = res.Err.Error()
 				info["error"] = res.Err.Error()
 				engineFaults = append(engineFaults, fmt.Sprintf("%s: %v", con.Func, res.Err))
 				funcs = append(funcs, info)
@@ -434,6 +438,7 @@ func runCheck(o *checkOpts) int {
 	expectedPath := filepath.Join(o.verif, "expected", o.prop+".json")
 	expected := loadExpected(expectedPath)
 	violations := 0
+	undecided := 0
 	discharged := 0
 	nObl := 0
 	covers, coversOK := 0, 0
@@ -517,6 +522,14 @@ func runCheck(o *checkOpts) int {
 			}
 			if !seen[n] {
 				if kf := known.match(o.prop, n); kf != nil && kf.Status == "open" {
+					continue
+				}
+				if why := untranslatableFor(untranslatable, n); why != "" {
+					// the contract of this function could not be evaluated against the current code (a name, call site or
+					// loop it mentions is gone): that decides nothing — it is reported as undecided (exit 2), never as a violation
+					undecided++
+					nObl++
+					fmt.Printf("UNDECIDED property=%s obligation=%s: the contract no longer matches the code (%s)\n", o.prop, n, why)
 					continue
 				}
 				violations++
@@ -613,6 +626,12 @@ func runCheck(o *checkOpts) int {
 	if violations > 0 {
 		return 1
 	}
+	if undecided > 0 {
+		for _, ef := range engineFaults {
+			fmt.Println("ENGINE-FAULT:", ef)
+		}
+		return 2
+	}
 	if nObl == 0 || (len(engineFaults) > 0 && !o.updateExpected && o.only == "" && o.onlyFn == "") {
 		for _, ef := range engineFaults {
 			fmt.Println("ENGINE-FAULT:", ef)
@@ -620,6 +639,34 @@ func runCheck(o *checkOpts) int {
 		return 2
 	}
 	return 0
+}
+
+// untranslatableFor: the reason why the function that obligation `name` belongs to could not be put under its contract.
+func untranslatableFor(m map[string]string, name string) string {
+	i := strings.Index(name, "#")
+	if i < 0 {
+		return ""
+	}
+	fn := name[:i]
+	rest := name[i:]
+	// tagged contracts: NAME#tag#class:...
+	if strings.HasPrefix(rest, "#") {
+		if j := strings.Index(rest[1:], "#"); j >= 0 {
+			if why, ok := m[fn+rest[:j+1]]; ok {
+				return why
+			}
+		}
+	}
+	if why, ok := m[fn]; ok {
+		return why
+	}
+	// missing targets are recorded by their contract name (without the package prefix)
+	for k, why := range m {
+		if strings.HasSuffix(fn, "."+k) || strings.HasSuffix(fn+rest, "."+k) {
+			return why
+		}
+	}
+	return ""
 }
 
 func claimsSafety(ob *Obligation) bool {
